@@ -204,6 +204,9 @@ impl Prop for LayoutProp {
                 refmodel::Prop::Reporting => "reporting",
             };
             let sig = format!("{kind}:{}", f.rule);
+            if kind == "feasibility" && super::e2e::known_nonmetric("C15", &rendered, &f.rule, stats) {
+                continue;
+            }
             if known_open("C15", &sig) {
                 stats.known_hit(&sig);
                 continue;
